@@ -233,7 +233,18 @@ type c12Res struct {
 	Status, Trace, Probe, Fresh string
 }
 
+// c12RunOnce: a run the hang watchdog ended is executed again (up to twice): runs are deterministic, so a real hang
+// repeats while a stall of the whole process does not.
 func c12RunOnce(cfg c12Cfg, src string) c12Res {
+	r := c12RunOnce1(cfg, src)
+	for attempt := 0; attempt < 2 && r.Status == "hang"; attempt++ {
+		time.Sleep(time.Duration(2+3*attempt) * time.Second)
+		r = c12RunOnce1(cfg, src)
+	}
+	return r
+}
+
+func c12RunOnce1(cfg c12Cfg, src string) c12Res {
 	done := make(chan c12Res, 1)
 	go func() {
 		var r c12Res
@@ -286,6 +297,7 @@ func c12RunOnce(cfg c12Cfg, src string) c12Res {
 	case r := <-done:
 		return r
 	case <-hangAfter(60 * time.Second):
+		noteHang()
 		return c12Res{Status: "hang", Trace: "-", Probe: "-", Fresh: "-"}
 	}
 }
